@@ -333,6 +333,27 @@ func corrProbe(r *Rng, which string) (line, got string) {
 			}
 		}
 		return strings.TrimSpace(fmt.Sprintf("model offplan %d %d %d %d %d %s", math.Float64bits(delta), jt, et, b2i(rev), b2i(pres), pathsStr(ps))), strings.Join(parts, " ; ")
+	case "areaop":
+		// output rings as the engine holds them (no duplicate filtering needed by areaOP): small grids
+		// shifted and scaled up to 2^40, so that the operand forms (sum / difference taken in int64
+		// before the conversion) matter to the float result
+		p := corrPath(r)
+		if len(p) == 0 {
+			p = clip.Path64{sp()}
+		}
+		var mul, dx, dy int64 = 1, 0, 0
+		switch r.Intn(4) {
+		case 1:
+			mul = int64(r.Range(1, 1<<20))
+		case 2:
+			mul, dx, dy = int64(r.Range(1, 1000)), int64(r.Range(-(1<<30), 1<<30))<<10, int64(r.Range(-(1<<30), 1<<30))<<10
+		case 3:
+			mul, dx, dy = int64(r.Range(1, 1<<27)), int64(r.Range(-(1<<28), 1<<28)), int64(r.Range(-(1<<28), 1<<28))
+		}
+		for i := range p {
+			p[i] = P{X: p[i].X*mul + dx + int64(r.Range(-2, 2)), Y: p[i].Y*mul + dy + int64(r.Range(-2, 2))}
+		}
+		return "model areaop " + pathStr(p), fmt.Sprint(math.Float64bits(clip.VAreaOP(p)))
 	case "strip":
 		p := corrPath(r)
 		closed := r.Bool()
@@ -557,13 +578,44 @@ func corrProbe(r *Rng, which string) (line, got string) {
 	case "PerpendicDistFromLineSqr64":
 		a, b, c := any(), any(), any()
 		return fmt.Sprintf("gen PerpendicDistFromLineSqr64 %d %d %d %d %d %d", a.X, a.Y, b.X, b.Y, c.X, c.Y), fmt.Sprint(math.Float64bits(clip.PerpendicDistFromLineSqr64(a, b, c)))
+	case "PerpendicDistFromLineSqrD":
+		// float operands: integers and hundredths at magnitudes from units to 2^29, with short and
+		// long (2^26+) line segments, so that cancellation in any rearranged formula shows in the bits
+		fp := func(m float64) clip.PointD {
+			q := func() float64 {
+				v := float64(r.Range(-1000, 1000))
+				if r.Bool() {
+					v /= 100
+				}
+				return v
+			}
+			return clip.PointD{X: m + q(), Y: -m/3 + q()}
+		}
+		m := []float64{0, 0, 1 << 10, 1 << 20, 1 << 27, 1 << 29}[r.Intn(6)]
+		a, b, c := fp(m), fp(m), fp(m)
+		if r.Bool() {
+			l := []float64{1 << 10, 1 << 26, 1 << 28}[r.Intn(3)]
+			c = clip.PointD{X: c.X + l, Y: c.Y + l*float64(r.Range(-3, 3))/3}
+		}
+		if r.Chance(0.05) {
+			c = b
+		}
+		fb := math.Float64bits
+		return fmt.Sprintf("gen PerpendicDistFromLineSqrD %d %d %d %d %d %d", fb(a.X), fb(a.Y), fb(b.X), fb(b.Y), fb(c.X), fb(c.Y)), fmt.Sprint(fb(clip.PerpendicDistFromLineSqrD(a, b, c)))
+	case "areaTriangle":
+		a, b, c := any(), any(), any()
+		if r.Bool() {
+			k := int64(r.Range(1, 1<<12))
+			a, b, c = P{X: a.X * k, Y: a.Y * k}, P{X: b.X * k, Y: b.Y * k}, P{X: c.X * k, Y: c.Y * k}
+		}
+		return fmt.Sprintf("gen areaTriangle %d %d %d %d %d %d", a.X, a.Y, b.X, b.Y, c.X, c.Y), fmt.Sprint(math.Float64bits(clip.VAreaTriangle(a, b, c)))
 	}
 	fatal("unknown probe %s", which)
 	return
 }
 
-var genProbes = []string{"triSign", "multiplyUInt64", "productsAreEqual", "isCollinear", "CrossProduct", "dotProduct64", "segsIntersect", "checkPrecision", "IsOdd", "ptsReallyClose", "isContributingClosed", "isContributingOpen", "getLocation", "getEdgesForPt", "isHeadingClockwise", "headingClockwise", "getAdjacentLocation", "areOpposites", "hasHorzOverlap", "hasVertOverlap", "isClockwise", "getSegmentIntersection", "getSegmentIntersectPt", "rectMethods", "getBounds", "GetBounds64", "Area64", "PerpendicDistFromLineSqr64"}
-var modelProbes = []string{"offplan", "rectpoly", "rectline", "pipop", "scan", "lowest", "trim", "simp64", "pip", "strip", "mink", "vertex", "clean", "build", "tree", "tree"}
+var genProbes = []string{"triSign", "multiplyUInt64", "productsAreEqual", "isCollinear", "CrossProduct", "dotProduct64", "segsIntersect", "checkPrecision", "IsOdd", "ptsReallyClose", "isContributingClosed", "isContributingOpen", "getLocation", "getEdgesForPt", "isHeadingClockwise", "headingClockwise", "getAdjacentLocation", "areOpposites", "hasHorzOverlap", "hasVertOverlap", "isClockwise", "getSegmentIntersection", "getSegmentIntersectPt", "rectMethods", "getBounds", "GetBounds64", "Area64", "PerpendicDistFromLineSqr64", "PerpendicDistFromLineSqrD", "areaTriangle"}
+var modelProbes = []string{"offplan", "rectpoly", "rectline", "pipop", "scan", "lowest", "trim", "simp64", "pip", "strip", "mink", "vertex", "clean", "build", "tree", "tree", "areaop"}
 
 func corrStage(name string, probes []string, quick, thorough int, rule string) {
 	stages[name] = func(ctx *Ctx, cnt func(q, t int) int, replay string) Result {
@@ -593,7 +645,7 @@ func corrStage(name string, probes []string, quick, thorough int, rule string) {
 }
 
 func init() {
-	corrStage("gen-corr", genProbes, 56000, 2800000, "translator validation: every generated function (Gen.*) is evaluated by the Lean oracle on operand-value inputs and compared with the real function called in-process (sign only for float64 cross / dot products, bit patterns for Area64 and PerpendicDistFromLineSqr64); non-trivial = any probe with a non-empty argument list")
+	corrStage("gen-corr", genProbes, 60000, 3000000, "translator validation: every generated function (Gen.*) is evaluated by the Lean oracle on operand-value inputs and compared with the real function called in-process (sign only for float64 cross / dot products, bit patterns for Area64, areaTriangle, PerpendicDistFromLineSqr64 and PerpendicDistFromLineSqrD, the last on float operands up to 2^29 with segments up to 2^28 long); non-trivial = any probe with a non-empty argument list")
 	corrStage("wind-corr", []string{"windc", "windx", "windd", "windc", "windd", "windopen"}, 60000, 2500000, "correspondence of the winding-count bookkeeping model (Model.Wind) with the real setWindCountForClosedPathEdge / setWindCountForOpenPathEdge / intersectEdges (counts, hotness afterwards and output records created, for hot / cold / front / back / shared-record combinations) run on synthetic active-edge lists (verif hook): 0-5 edges left of the new edge, subject / clip / open edges, all four fill rules, counts either produced by the real insertion (consistent states) or arbitrary in -3..3; resulting counts compared exactly")
-	corrStage("models-corr", modelProbes, 140000, 4000000, "function-level correspondence of the hand models (TrimCollinear64, SimplifyPath64, PointInPolygon, StripDuplicates, minkowskiInternal, addPathsToVertexList [vertex ring, flags, local minima], cleanCollinear's removal loop and buildPath on synthetic output rings, buildTree on synthetic tables of output records with nested / disjoint rectangles, arbitrary owner links and splits lists, pointInOpPolygon on synthetic rings, Group.GetLowestPathInfo, insertScanline / popScanline, RectClipLinesPaths64 [whole line machine] the raw rings of RectClip64.executeInternal [polygon state machine before checkEdges], and the decision events of ClipperOffset.Execute64 [group delta, per-path dispatch, final union]): random paths of 0-8 vertices on 2-4 wide grids (forcing duplicates, collinear runs, wrap-around cases) at three magnitudes; outputs compared exactly; the clean probe is skipped when fixSelfIntersects (not modelled) would act")
+	corrStage("models-corr", modelProbes, 150000, 4250000, "function-level correspondence of the hand models (TrimCollinear64, SimplifyPath64, PointInPolygon, StripDuplicates, minkowskiInternal, addPathsToVertexList [vertex ring, flags, local minima], cleanCollinear's removal loop and buildPath on synthetic output rings, buildTree on synthetic tables of output records with nested / disjoint rectangles, arbitrary owner links and splits lists, pointInOpPolygon on synthetic rings, areaOP on synthetic rings at magnitudes up to 2^40 (float bit patterns), Group.GetLowestPathInfo, insertScanline / popScanline, RectClipLinesPaths64 [whole line machine] the raw rings of RectClip64.executeInternal [polygon state machine before checkEdges], and the decision events of ClipperOffset.Execute64 [group delta, per-path dispatch, final union]): random paths of 0-8 vertices on 2-4 wide grids (forcing duplicates, collinear runs, wrap-around cases) at three magnitudes; outputs compared exactly; the clean probe is skipped when fixSelfIntersects (not modelled) would act")
 }
